@@ -529,6 +529,7 @@ _k('K.derive.structs', 'k_derive_structs', ['C15'], 'derive output for named / t
 _k('K.derive.recursive', 'k_derive_recursive_types', ['C15'], 'derive output for recursive types (list node with Option<Gc<Self>>, expression enum with Gc<Self> children): self-typed fields are traced, NEEDS_TRACE is true', complete='bounded: corpus of 2 recursive shapes')
 _k('K.derive.enums_generics_nested', 'k_derive_enums_generics_nested', ['C15'], 'derive output for enums with mixed variants (only the active variant, require_static inside a variant), generics with and without bound, nested containers, explicit gc_lifetime', complete='bounded: corpus of 6 shapes (complete in the field values)')
 _k('K.derive.enum_static_positions', 'k_derive_enum_static_positions', ['C15'], 'derive output for enums where one variant has require_static at a field position at which sibling variants hold a pointer (positions 0 and 1, named and tuple variants, all-static variant): the exemption is per field of its own variant; NEEDS_TRACE counts every non-exempt field of every variant', complete='bounded: corpus of 3 enum shapes (complete in the field values)')
+_k('K.derive.same_outer_type', 'k_derive_same_outer_type', ['C15'], 'derive output for types whose fields share the outer type constructor with different generic arguments (Option<u32> next to Option<Gc>, Box<u8> / Box<Gc> across variants, either order): every pointer is traced and NEEDS_TRACE is the disjunction over the WHOLE field types; false when none needs tracing', complete='bounded: corpus of 4 shapes (complete in the field values)')
 _k('K.step.backward_barriers_earn_no_credit', 'k_step_backward_barriers_earn_no_credit', ['C10'], 'C10 as stated: no backward barrier raises a credit counter or lowers a debit counter')
 _k('K.step.forward_barriers_earn_no_credit', 'k_step_forward_barriers_earn_no_credit', ['C10'], 'C10 as stated, forward barriers: FAILS for a White child while marking (known finding F3)')
 
